@@ -340,10 +340,12 @@ func (tr GitHubReporter) Publish(ctx context.Context, r report.Report) error {
 		if _, err := fmt.Fprintf(tr.out,
 			"::%s file=%s,line=%d,col=%d::%s\n",
 			violation.Level,
-			violation.Location.File,
+			workflowCommandProperty.Replace(violation.Location.File),
 			violation.Location.Row,
 			violation.Location.Column,
-			fmt.Sprintf("%s. To learn more, see: %s", violation.Description, getDocumentationURL(violation)),
+			workflowCommandData.Replace(
+				fmt.Sprintf("%s. To learn more, see: %s", violation.Description, getDocumentationURL(violation)),
+			),
 		); err != nil {
 			return err
 		}
@@ -526,6 +528,13 @@ func (tr JUnitReporter) Publish(_ context.Context, r report.Report) error {
 
 	return testSuites.WriteXML(tr.out)
 }
+
+// Escaping of workflow command data and property values, as the GitHub Actions runner undoes it:
+// https://github.com/actions/toolkit/blob/main/packages/core/src/command.ts
+var (
+	workflowCommandData     = strings.NewReplacer("%", "%25", "\r", "%0D", "\n", "%0A")
+	workflowCommandProperty = strings.NewReplacer("%", "%25", "\r", "%0D", "\n", "%0A", ":", "%3A", ",", "%2C")
+)
 
 // truncate returns the longest prefix of s that is at most n bytes long and does not end inside
 // a UTF-8 encoded rune. It must only be called with n < len(s).
